@@ -158,6 +158,7 @@ ITEMS = location_types() + [
          loops={1: dict(invariant=[
                     ('position_is_a_char_boundary', 'old_pos <= window_text.spec_bytes().len() && boundary(window_text@, old_pos as int)'),
                     ('column_window_not_inverted', 'do_crop ==> 1 <= left_col <= right_col'),
+                    ('column_window_contains_the_error_column', 'do_crop && error_col >= 1 ==> left_col <= error_col <= right_col'),
                     ('rows', 'row <= window_start_row + old_pos && window_start_row <= isize::MAX'),
                     ('output_grows_with_the_input', 'encode_utf8(out@).len() <= 8 * old_pos && window_text.spec_bytes().len() <= usize::MAX / 32'),
                  ], decreases='window_text.spec_bytes().len() - old_pos')},
@@ -168,6 +169,26 @@ ITEMS = location_types() + [
             dict(before='let out = sanitize_terminal_snippet_preserve_len(out);', label='C17:the_rebased_marker_span_lies_inside_the_cropped_text',
                  text='assert(new_local_start <= new_local_end && new_local_end <= encode_utf8(out@).len());'),
             dict(after='let line = str_strip_cr_suffix(line_raw);', text='lemma_strip_cr_len(line_raw@); axiom_str_len_bounded(line);'),
+            # the marker keeps pointing at the character it pointed at (conditional on what the renderers hand in: the span starts at
+            # the reported column of this line - proved for them in the #marker fragments)
+            dict(before='rebased = true;', label='C17:the_rebased_marker_still_starts_at_the_character_of_the_reported_column',
+                 text="""
+                 if error_col >= 1 && error_col - 1 <= line@.len() && local_start == line_start_old + char_off(line@, error_col as int - 1) {
+                     let c = error_col as int; let n = line@.len() as int; let ell = seq!['…'];
+                     lemma_char_off_ends(line@); lemma_char_off_ends(rendered_line@); lemma_ellipsis_is_three_bytes();
+                     lemma_char_off_monotonic(line@, 0, c - 1); lemma_char_off_monotonic(line@, c - 1, n);
+                     let k: int = if !do_crop || n == 0 || left_col >= n + 1 || (left_col <= 1 && right_col >= n) { c - 1 } else {
+                         let s0 = left_col as int; let e0 = if right_col + 1 < n + 1 { right_col + 1 } else { n + 1 };
+                         let pre = if s0 > 1 { ell } else { Seq::<char>::empty() }; let post = if e0 <= n { ell } else { Seq::<char>::empty() };
+                         lemma_char_off_in_framed_subrange(pre, line@, s0 - 1, e0 - 1, post, c - 1);
+                         lemma_char_off_monotonic(line@, s0 - 1, c - 1);
+                         assert(encode_utf8(Seq::<char>::empty()).len() == 0) by { reveal_with_fuel(encode_utf8, 1); }
+                         pre.len() + (c - s0) };
+                     assert(0 <= k <= rendered_line@.len());
+                     lemma_char_off_monotonic(rendered_line@, k, rendered_line@.len() as int);
+                     assert(new_local_start == line_start_new + char_off(rendered_line@, k));
+                     assert(c - 1 < n ==> k < rendered_line@.len() && rendered_line@[k] == line@[c - 1]);
+                 }"""),
             dict(before='string_push_str(&mut out, rendered_line.as_str());', ghost=True, text='let ghost out_b = out@;'),
             dict(after='string_push_str(&mut out, rendered_line.as_str());', text='encode_utf8_concat(out_b, rendered_line@);'),
             dict(before_re=r"string_push\(&mut out, '\\n'\);", ghost=True, text='let ghost out_c = out@;'),
